@@ -24,12 +24,13 @@ def declare(reg, eng):
                  ensures=["result.acquired == False"])
     # blocking on an inter-process lock is an interference point: other processes (an earlier launch of the same job)
     # may create or remove files of the job directory while this process waits
-    reg.contract("IPLock.acquire", params=["self", "blocking"], types={"self": "IPLock"}, returns="bool", modifies=["self.acquired"], awaits=True,
+    reg.contract("IPLock.acquire", params=["self", "blocking", "timeout"], defaults={"blocking": "True", "timeout": "None"},
+                 types={"self": "IPLock"}, returns="bool", modifies=["self.acquired"], awaits=True,
                  ensures=["result == self.acquired"], effect="iplock.acquire")
     reg.contract("IPLock.release", params=["self"], types={"self": "IPLock"}, modifies=["self.acquired"], effect="iplock.release",
                  ensures=["self.acquired == False"], raises={"Exception": {"when": [], "modifies": []}})
     reg.contract("IPLock.__enter__", params=["self"], types={"self": "IPLock"}, returns="IPLock", modifies=["self.acquired"], awaits=True,
-                 ensures=["result is self"], effect="iplock.acquire")
+                 ensures=["result is self", "self.acquired == True"], effect="iplock.acquire")      # `with lock:` blocks until the lock is held
     reg.contract("IPLock.__exit__", params=["self"], types={"self": "IPLock"}, modifies=["self.acquired"], effect="iplock.release")
     reg.contract("report_eoj", params=[], modifies=[], effect="report_eoj")
     # the task body: opaque; assumed not to create or delete the runner's marker files (.done / .failed / .pid)
@@ -86,7 +87,9 @@ def declare(reg, eng):
                                (("C05", "C10"), "length(self.locks) == length(self.lockfiles) and forall(k, 0, length(self.locks), at(self.locks, k).acquired)")],
                      "body": [(("C10", "C05"), "not isfile(self.donepath) and length(self.locks) == length(self.lockfiles) "
                                               "and forall(k, 0, length(self.locks), at(self.locks, k).acquired)"),
-                              ("C10", "not isfile(self.failedpath)")],
+                              ("C10", "not isfile(self.failedpath)"),
+                              # both termination signals are diverted (to handle_error: failure marker, cleanup, exit 1) before the body starts
+                              ("C10", "effect_with_arg('signal.signal', 0, signal.SIGTERM) and effect_with_arg('signal.signal', 0, signal.SIGINT)")],
                  },
                  modifies=None,
                  # while blocked on a lock file other processes change the job directory (environment: markers stay regular files)
